@@ -647,7 +647,33 @@ def fam_partial(g):
     yield from g.commit_all()
 
 
+def fam_human_overwrites_ai(g):
+    """an agent writes a block; a person removes every line of it (and changes something else, so the
+    file still differs from HEAD), keeps editing at the same place, and commits"""
+    rng = g.rng
+    files = [f for f in g.worktree_files() if len(split_lines(g.w.read(g.repo, f) or "")) >= 2]
+    if not files:
+        yield g.human_edit(new_file=True)
+        yield from g.commit_all()
+        files = g.worktree_files()
+    f = rng.choice(files)
+    before = g.w.read(g.repo, f)
+    yield g.ai_edit(path=f, kinds=["insert", "append"], pos=rng.choice(["top", "any", "bottom"]), max_block=3)
+    after = g.w.read(g.repo, f)
+    # the person's first edit: back to the text before the agent + one new line of their own
+    eol, fnl = gen.file_style(before)
+    lines = split_lines(before)
+    pos = rng.randint(0, len(lines))
+    lines[pos:pos] = [gen.new_line(rng, g.ex)]
+    yield {"op": "edit", "who": HUMAN, "files": {f: gen.join_lines(lines, eol, True)}, "dt": g.dt(), "pre_ckpt": True,
+           "desc": {"kind": "remove_ai_block", "pos": "any", "who": HUMAN}}
+    for _ in range(rng.randint(1, 2)):
+        yield g.human_edit(path=f, kinds=["insert", "append"], pos=rng.choice(["top", "any", "bottom"]), max_block=4)
+    yield from g.commit_all()
+
+
 FAMILIES = {
+    "human_overwrites_ai": fam_human_overwrites_ai,
     "destructive": fam_destructive,
     "partial": fam_partial,
     "commits": fam_plain_commits,
